@@ -5,7 +5,7 @@ from harness import check, judge, replay
 
 LENSES = {
     "quick": [("core_reduce", 1500), ("core_stackcat", 1500), ("core_index", None), ("semiring_addmul", 1500),
-              ("subs_tensor", 1000), ("gauss_pointwise", 1000), ("binder_names", 1000), ("neginf_contraction", None), ("SampleGen", 400)],
+              ("subs_tensor", 2500), ("gauss_pointwise", 1000), ("binder_names", 1000), ("neginf_contraction", None), ("SampleGen", 400)],
     "thorough": [("core_pointwise", 8000), ("core_reduce", 8000), ("core_stackcat", 8000), ("core_index", None),
                  ("semiring_addmul", 8000), ("semiring_logaddexp", 4000), ("subs_tensor", 5000),
                  ("gauss_pointwise", 5000), ("binder_names", 5000), ("delta_ops", 5000), ("neginf_contraction", None), ("SampleGen", None)],
